@@ -33,31 +33,48 @@ CONFIG = dict(
     profiles=["debug"],
     n_quick=2500, n_thorough=120000, shards=12,
     nontrivial_re=r"\(roas \(",
-    rule="1-3 RTR sessions (caches 1-3, sometimes a reconnect to the same cache after the first session ended) interleaved step "
+    rule="1-3 RTR sessions (caches 1-3; two sessions on ONE cache address either overlapping - hard reset, two caches on a "
+         "host - or as a reconnect after the first ended; ROA rows are attributed to sessions by Arc pointer) interleaved step "
          "by step; each stream = reset response (Cache Response, IPv4/IPv6 announcements from a small colliding pool, End of Data) "
          "followed by 0-3 rounds: serial round (optional Serial Notify, Cache Response, announcements and withdrawals of known "
          "and unknown records, duplicates, End of Data), Cache Reset + full response, or a bare Serial Notify; Router Key (type 9), "
          "ASPA (11) and other unknown types with random bodies and Error Reports interleaved; protocol versions 0,1,2 (End of Data "
-         "12 or 24 bytes); optional malformed tail (length < 8, wrong fixed length, huge length, truncated PDU, garbage). Delivery: "
+         "12 or 24 bytes, session id changing after a cache restart); responses abandoned half-way followed by Cache Reset; Router "
+         "Key PDUs of realistic size (123 bytes), bodies of 200/5000/65527 bytes (the largest PDU the framing allows); prefix "
+         "lengths 0,8,16,24,25,31,32 / 0,32,48,64,112,113,128 with distinct low-order bytes; up to 8 End of Data per stream; "
+         "optional malformed tail (length < 8, wrong fixed length, length 65536, huge length, truncated PDU, garbage). Delivery: "
          "random fragment sizes 1..200 (often cut exactly at End-of-Data boundaries, followed by a snapshot; otherwise spanning "
-         "them), soft resets after a completed round, session end by EOF or cancellation at any byte offset, snapshots after every "
-         "group and at the end.  non-trivial = some snapshot shows installed ROAs; distinct = distinct case line",
-    expect_tokens=["(serial ", "reset reset", "(done 1", "(6 x", "(4 x", "(roas)", "(tcp cleared", "(bad-case)"],
+         "them), soft resets after a completed round, session end by EOF or cancellation at any byte offset, bytes queued and the peer gone before the client ran, "
+         "client writes made to fail from some point on, snapshots after every group and at the end; try_connect/serve over "
+         "loopback TCP: cancel, and the hard-reset sequence of the gRPC handler (old session cancelled, rpki_drop_all with a fresh "
+         "Arc, new client on the same address while the old socket is open).  non-trivial = some snapshot shows installed ROAs; distinct = distinct case line",
+    expect_tokens=["(serial ", "reset reset", "(done 1", "(6 x", "(4 x", "(roas)", "(tcp cleared", "(tcp-reset ok", "(bad-case)"],
     trusted_base=["model Rbgp/Rtr/Model.lean of packet/src/rpki.rs (from_bytes, parse, RtrCodec::decode) and daemon/src/rpki.rs serve_inner",
                   "model Rbgp/Rpki/Model.lean of RpkiTable underneath (C12)",
                   "harness/daemon/rpki.rs: PDU encoder, duplex plumbing, polling to quiescence; try_connect over loopback TCP"],
     modelled_not_verified=["tokio select!/Notify scheduling (abstracted to run-until-blocked; ambiguous orders avoided)",
                            "tokio_util Framed buffering and decode_eof (EOF with or without residual bytes ends the session)",
-                           "the reconnect loop of try_connect beyond its exit path (timers, 10 s back-off)"],
+                           "the reconnect loop of try_connect beyond its exit path (timers, 10 s back-off); a reconnect re-uses "
+                           "RpkiState/Notify/CancellationToken whereas every script session starts from fresh ones",
+                           "the gRPC/config triggers of a session end (remove_rpki_client, disable_rpki, reset_rpki): only their effect "
+                           "(token cancelled; for the hard reset also rpki_drop_all(Arc::new(addr)) and a new try_connect) is reproduced",
+                           "a blocked (as opposed to failing) write of the client"],
     assumptions=["a conforming cache answers a Reset Query with announcements only; streams with withdrawals in a reset response "
                  "or with known-type PDUs spelled as `raw` are compared model-vs-code but not judged by the oracle",
-                 "at most one live session per cache address (as the daemon's map keyed by socket address with one port per cache gives)"],
+                 "after an Error Report PDU the client may keep or drop the session (RFC 8210 section 10); if it keeps it the "
+                 "installed set is still judged"],
+    oracle_stats=True,
+    expect_judged=["judged-installed", "judged-installed-empty", "judged-kept", "judged-consumed", "judged-ended-cleared"],
     claimed=True,
 )
 
-POOL4 = [("0a000000", 8), ("0a010000", 16), ("0a010100", 24), ("0a010180", 25), ("c0a80000", 16), ("0a0101ff", 24)]
+POOL4 = [("0a000000", 8), ("0a010000", 16), ("0a010100", 24), ("0a010180", 25), ("c0a80000", 16), ("0a0101ff", 24),
+         ("0a010101", 32), ("0a010102", 32), ("0a010100", 31), ("00000000", 0)]
 POOL6 = [("20010db8000000000000000000000000", 32), ("20010db8000100000000000000000000", 48),
-         ("20010db80001000000000000000000ff", 48), ("00000000000000000000000000000000", 0)]
+         ("20010db80001000000000000000000ff", 48), ("00000000000000000000000000000000", 0),
+         ("20010db8000100020000000000000000", 64), ("20010db8000100030000000000000000", 64),
+         ("20010db80001000200000000000000a1", 128), ("20010db80001000200000000000000a2", 128),
+         ("20010db8000100020003000400050000", 112), ("20010db8000100020003000400058000", 113)]
 ASNS = [65001, 65002, 0, 4200000001]
 
 
@@ -107,14 +124,19 @@ def prefix_pdu(r, v, announce, known=None):
     return (k, v, flags, l, ml, a, asn), (k, a, l, ml, asn)
 
 
+def big(r):
+    """rarely a large body: PDUs well beyond any fixed-size one, up to the largest the framing allows"""
+    return r.pick([200, 200, 5000, 65527]) if r.chance(1, 12) else None
+
+
 def noise(r, v):
     k = r.below(6)
-    if k == 0:
-        return ("raw", v, 9, r.below(65536), rhex(r, r.pick([0, 4, 26, 100])))      # router key
+    if k == 0:   # Router Key: 8 header + 20 SKI + 4 ASN + ~91 SubjectPublicKeyInfo
+        return ("raw", v, 9, r.below(65536), rhex(r, big(r) or r.pick([115, 115, 0, 4, 26, 100])))
     if k == 1:
-        return ("raw", v, r.pick([5, 11, 12, 200, 255]), r.below(65536), rhex(r, r.pick([0, 1, 8, 40])))
-    if k == 2:
-        return ("err", v, r.pick([0, 2, 3, 4]), rhex(r, r.pick([0, 8, 16, 30])))
+        return ("raw", v, r.pick([5, 11, 12, 200, 255]), r.below(65536), rhex(r, big(r) or r.pick([0, 1, 8, 40])))
+    if k == 2:   # Error Report: encapsulated PDU + text
+        return ("err", v, r.pick([0, 1, 2, 3, 4, 5, 6, 7, 8]), rhex(r, big(r) or r.pick([0, 8, 16, 30, 120])))
     return None
 
 
@@ -128,8 +150,10 @@ def gen_stream(r):
     def add(p):
         if p is not None:
             pdus.append(p)
-    def round_reset():
-        nonlocal serial
+    def round_reset(truncated=False):
+        nonlocal serial, sess
+        if r.chance(1, 6):
+            sess = r.pick([7, 8, 42, 65535, 0])       # a restarted cache announces a new session id
         add(("cr", v, sess))
         known.clear()
         for _ in range(r.below(r.pick([2, 4, 7]))):
@@ -137,14 +161,19 @@ def gen_stream(r):
             add(p); known.append(key)
             if r.chance(1, 6):
                 add(noise(r, v))
-        if r.chance(1, 40):      # non-conforming: a withdrawal inside a reset response
+        if r.chance(1, 120):     # non-conforming: a withdrawal inside a reset response
             p, key = prefix_pdu(r, v, False, known)
             add(p)
+        if truncated:            # the cache abandons the response (a Cache Reset follows)
+            return
         serial = (serial + r.pick([1, 1, 7])) % 4294967296
         add(("eod", v, sess, serial))
         eod_ends.append(sum(map(plen, pdus)))
+    if r.chance(1, 12):
+        round_reset(truncated=True)
+        add(("creset", v))
     round_reset()
-    for _ in range(r.pick([0, 1, 1, 2, 3])):
+    for _ in range(r.pick([0, 1, 1, 2, 3, 6])):
         k = r.below(10)
         if k < 5:
             if r.chance(1, 2):
@@ -162,6 +191,17 @@ def gen_stream(r):
             add(("eod", v, sess, serial))
             eod_ends.append(sum(map(plen, pdus)))
         elif k < 8:
+            if r.chance(1, 3):   # Cache Reset in the middle of a response
+                if r.chance(1, 2):
+                    round_reset(truncated=True)
+                else:            # ... of a serial response
+                    add(("cr", v, sess))
+                    for _ in range(1 + r.below(3)):
+                        ann = r.chance(1, 2)
+                        p, key = prefix_pdu(r, v, ann, known if not ann else None)
+                        add(p)
+                        if ann:
+                            known.append(key)
             add(("creset", v))
             if r.chance(9, 10):
                 round_reset()
@@ -181,6 +221,8 @@ def gen_stream(r):
             add(("junk", "%02x0700070000000c" % max(v, 1) + rhex(r, 4)))  # v1 End of Data with the v0 length
         elif k == 4:
             add(("junk", rhex(r, r.pick([1, 7, 8, 9, 30]))))
+        elif k == 5 and r.chance(1, 2):
+            add(("junk", "%02x0a000000010000" % v + rhex(r, 24)))        # declared length 65536: one too many
         elif k == 5:
             add(("junk", "%02x04000000000014" % v))                     # truncated IPv4 prefix PDU
         else:
@@ -199,7 +241,7 @@ def gen_case(r):
         for i in range(len(sids) - 1, 0, -1):
             j = r.below(i + 1); sids[i], sids[j] = sids[j], sids[i]
     for sid in sids:
-        cache = sid if r.chance(4, 5) else r.pick([1, 2])
+        cache = sid if r.chance(2, 3) else r.pick([1, 2])
         pdus, ends = gen_stream(r)
         streams.append(dict(sid=sid, cache=cache, pdus=pdus, ends=ends, total=sum(map(plen, pdus)), pos=0,
                             started=False, ended=False))
@@ -213,10 +255,12 @@ def gen_case(r):
             break
         s = r.pick(cand)
         if not s["started"]:
-            if live_cache.get(s["cache"]):
-                # never two live sessions on one address: end the other one first
+            if live_cache.get(s["cache"]) and r.chance(1, 2):
+                # reconnect: the earlier session on this address ends first (otherwise the two overlap,
+                # as after a hard reset or with two caches on one host)
                 o = live_cache[s["cache"]]
-                steps.append("(end %d %s)" % (o["sid"], r.pick(["eof", "cancel"])))
+                if not o["ended"]:
+                    steps.append("(end %d %s)" % (o["sid"], r.pick(["eof", "cancel"])))
                 o["ended"] = True
                 live_cache[s["cache"]] = None
                 if r.chance(1, 2):
@@ -231,7 +275,9 @@ def gen_case(r):
             k = r.below(4)
             if k == 0:
                 steps.append("(end %d %s)" % (s["sid"], r.pick(["eof", "cancel"])))
-                s["ended"] = True; live_cache[s["cache"]] = None
+                s["ended"] = True
+                if live_cache.get(s["cache"]) is s:
+                    live_cache[s["cache"]] = None
                 steps.append("(snap)")
             elif k == 1 and s["ends"] and s["pos"] == s["ends"][-1]:
                 steps.append("(soft %d)" % s["sid"]); steps.append("(snap)")
@@ -240,10 +286,24 @@ def gen_case(r):
             continue
         if r.chance(1, 40):
             steps.append("(end %d %s)" % (s["sid"], r.pick(["eof", "cancel"])))
-            s["ended"] = True; live_cache[s["cache"]] = None
+            s["ended"] = True
+            if live_cache.get(s["cache"]) is s:
+                live_cache[s["cache"]] = None
             steps.append("(snap)")
             continue
-        n = r.pick([1, 3, 8, 12, 20, 24, 32, 50, 100, 200, 1000])
+        if r.chance(1, 60):      # bytes queued, then the peer disappears before the client ran
+            n = r.pick([8, 20, 52, 100, 1000])
+            steps.append("(sendq %d %d)" % (s["sid"], n))
+            steps.append("(end %d eof)" % s["sid"])
+            s["pos"] = min(s["total"], s["pos"] + n); s["ended"] = True
+            if live_cache.get(s["cache"]) is s:
+                live_cache[s["cache"]] = None
+            steps.append("(snap)")
+            continue
+        if r.chance(1, 50):      # from now on the client's writes fail
+            steps.append("(wfail %d)" % s["sid"])
+            continue
+        n = r.pick([1, 3, 8, 12, 20, 24, 32, 50, 100, 200, 1000, 70000])
         if r.chance(1, 3):
             n = 1 + r.below(n)
         nxt = [e for e in s["ends"] if e > s["pos"]]
@@ -268,6 +328,7 @@ MALFORMED = [
     "(case (streams (1 1 ((cr 1 7)))) (steps (start 1) (start 1)))",
     "(case (streams (1 1 ((cr 1 7)))) (steps (start 2)))",
     "(case (streams) (steps snap))",
+    "(case (streams (1 1 ((cr 1 7)))) (steps (start 1) (sendq 1 8) (snap)))",
     "(case-tcp 65)",
     "case",
 ]
@@ -277,6 +338,7 @@ def gen(seed, n, tier):
     r = Rng(seed * 1000003 + 13)
     out = list(MALFORMED)
     out.append("(case-tcp %d)" % (6 if tier == "quick" else 24))
+    out.append("(case-tcp-reset %d)" % (4 if tier == "quick" else 16))
     for _ in range(n):
         out.append(gen_case(r))
     return out
